@@ -45,6 +45,11 @@ def _configs(tier):
                     if (n_rdm, n_cond) not in [(3, 4), (4, 5)] and \
                             (RDM_GROUPINGS.index(rd) + PAT_GROUPINGS.index(pdn)) % 3 != 0:
                         continue
+                    # (4, 5): up to 4^4 * 5^5 = 800 000 executions per grouping pair - every second pair
+                    # for lists, every fourth for arrays (the quick tier has the full product at (3, 4))
+                    if (n_rdm, n_cond) == (4, 5) and \
+                            (RDM_GROUPINGS.index(rd) * len(PAT_GROUPINGS) + PAT_GROUPINGS.index(pdn)) % (2 if cont == 'list' else 4) != 0:
+                        continue
                     # the six-digit-id groupings are crossed with 'index' and with each other only
                     if (rd == 'rbig' and pdn not in ('index', 'big')) or (pdn == 'big' and rd not in ('index', 'rbig')):
                         continue
